@@ -670,6 +670,16 @@ class GenA:
         elif form == 'bad':
             ssel = gen_selector(rng, sshape)
             dsel = gen_selector(rng, dshape)
+            hm, wm = min(sshape[0], dshape[0]), min(sshape[1], dshape[1])
+            if rng.random() < 0.5 and hm >= 2 and wm >= 2:
+                # shapes that differ but would broadcast against each other (one row against a block of rows of the same
+                # width, one column against a block, either way round): not a documented pairing - if a library version
+                # accepts it, material must still be conserved and unaddressed wells untouched
+                h, w = rng.randint(2, hm), rng.randint(2, wm)
+                a, b = rng.choice([((1, w), (h, w)), ((h, 1), (h, w)), ((h, w), (1, w)), ((h, w), (h, 1))])
+                ssel = gen_selector(rng, sshape, a)
+                dsel = gen_selector(rng, dshape, b)
+                self.b.stats['probe:broadcastable_mismatch'] += 1
         if ssel is not None:
             try:
                 scells, _ = M.select(ssel, ms.shape)
